@@ -73,7 +73,7 @@ func vPick(d *Document, name string, typ int, val int) vOp {
 		op.k = zzvsym.IntRange(name+"_k", 0, 3)
 	case vTArray:
 		n := root.GetArray("arr").Len()
-		op.k = zzvsym.IntRange(name+"_k", 0, 4)
+		op.k = zzvsym.IntRange(name+"_k", 0, 7)
 		if n == 0 {
 			op.k = 4
 		}
@@ -85,9 +85,9 @@ func vPick(d *Document, name string, typ int, val int) vOp {
 			return zzvsym.IntRange(name+sel, 0, n-1)
 		}
 		switch op.k {
-		case 0, 1, 3:
+		case 0, 1, 3, 5, 7:
 			op.i = idx("_i")
-		case 2:
+		case 2, 6:
 			zzvsym.Assume(n >= 2)
 			op.i = idx("_i")
 			op.j = idx("_j")
@@ -229,6 +229,12 @@ func vApplyIn(root *json.Object, op vOp) {
 			arr.SetInteger(op.i, val)
 		case 4:
 			arr.AddInteger(val)
+		case 5: // move the element at index i to the front
+			arr.MoveFront(arr.Get(op.i).CreatedAt())
+		case 6: // move the element at index j right before the element at index i
+			arr.MoveBefore(arr.Get(op.i).CreatedAt(), arr.Get(op.j).CreatedAt())
+		case 7: // move the element at index i to the end
+			arr.MoveLast(arr.Get(op.i).CreatedAt())
 		}
 	case vTText:
 		txt := root.GetText("txt")
